@@ -6,6 +6,7 @@ import (
 	"context"
 	"errors"
 	"fmt"
+	kmeta "k8s.io/apimachinery/pkg/api/meta"
 	"strings"
 
 	kerrors "k8s.io/apimachinery/pkg/api/errors"
@@ -96,6 +97,9 @@ func (r *Run) injectedErr(f Fault, gvk schema.GroupVersionKind, name string) err
 		return kerrors.NewConflict(gr(gvk), name, fmt.Errorf("verifsim: injected conflict"))
 	case "timeout":
 		return kerrors.NewTimeoutError("verifsim: injected timeout", 1)
+	case "nomatch":
+		// what a client's REST mapper returns while discovery has not (yet, or any more) seen the kind
+		return &kmeta.NoKindMatchError{GroupKind: gvk.GroupKind(), SearchedVersions: []string{gvk.Version}}
 	default:
 		return kerrors.NewInternalError(fmt.Errorf("verifsim: injected server error"))
 	}
